@@ -49,10 +49,11 @@ def parse_build(toks):
             if not (tag.isdigit() and int(tag) <= 9):
                 return None
             cfg[p[0]] = (p[1], int(tag))
-        elif p[0] in ("api", "storage", "block", "wasm") and len(p) == 2 and p[1].isdigit() and int(p[1]) <= 9:
+        elif p[0] in ("api", "storage", "block", "wasm", "wasmrec") and len(p) == 2 and p[1].isdigit() and int(p[1]) <= 9:
             if p[0] == "api" and int(p[1]) >= len(PREFIXES):
                 return None
-            cfg[p[0]] = (p[0], int(p[1]))
+            # wasmrec:N is the keeper of wasm:N behind a pass-through module of the test author's own
+            cfg["wasm" if p[0] == "wasmrec" else p[0]] = ("wasm" if p[0] == "wasmrec" else p[0], int(p[1]))
         else:
             return None
     return cfg
@@ -321,6 +322,7 @@ def check_builds(builds):
                         return "after build %s: storage is %s, supplied storage + one init run is %s" % (sorted(cfg.items()), out, sorted(want.items()))
         # all orders agree
         key = cfg_t
+        obs = [(op, out) for op, out in obs if op != "wasm-calls"]    # implementation-only line of the wasmrec wrapper
         ops_only = tuple(op for op, _ in obs)
         if (key, ops_only) in seen and seen[(key, ops_only)] != obs:
             a, b = seen[(key, ops_only)], obs
@@ -359,8 +361,33 @@ def check_wrapper(toks, out, seen):
     return None
 
 
+def _wasm_module_sees_all(ops, impl):
+    """An App built with `wasmrec:N` has a wasm module of the test author's own in the wasm slot (it notes the sender of every
+    message it is handed and passes it on). Every execute call that reached a contract — the contract records its sender —
+    must have been handed to that module first: the senders the contracts recorded are a subsequence of what the module noted."""
+    rec_wasm = False
+    for i, (op, out) in enumerate(zip(ops, impl)):
+        t = op.split()
+        if t and t[0] == "build":
+            last = [x for x in t[1:] if x.startswith(("wasm:", "wasmrec:"))]
+            rec_wasm = bool(last) and last[-1].startswith("wasmrec:") and out == "ok"
+        if op == "wasm-calls" and rec_wasm and i > 0 and ops[i - 1] == "records" and out.startswith("!w[") and impl[i - 1].startswith("["):
+            noted = [x.split("/", 1)[1] for x in out[3:-1].split(",") if x.startswith("x/")]
+            seen = []
+            for r in impl[i - 1][1:-1].split(","):
+                f = r.split(":")
+                if len(f) >= 3 and f[0] == "wasm#0" and f[1] == "exec":
+                    seen.append(f[2])
+            it = iter(noted)
+            for s_ in seen:
+                if not any(n == s_ for n in it):
+                    return ("op %d: a contract was executed by `%s` but the wasm module the app was built with was never handed that message "
+                            "(it noted %s; the contracts recorded %s)" % (i, s_, noted, seen))
+    return None
+
+
 def pred_c17(ops, impl):
-    return _check(ops, impl, False)
+    return _check(ops, impl, False) or _wasm_module_sees_all(ops, impl)
 
 
 def pred_c20(ops, impl):
